@@ -179,11 +179,15 @@ REGION_KINDS = {"dims": ["name_len", "name_bytes", "name_pad", "dim_len"],
                          "var_ndims", "var_dimid", "var_type", "var_vsize", "var_begin"]}
 
 
+WIDE_KINDS = ["list_nelems", "name_len", "dim_len", "att_nelems", "var_ndims", "var_dimid", "var_vsize", "var_begin"]   # 8 bytes in CDF-5
+
+
 def gen_bulk(d, tier):
     region = d.pick(["dims", "gatts", "vars", "vars"])
     j = d.pick([1, 1, 1, 2, 3] if tier == "quick" else [1, 1, 2, 2, 3])
     lo = d.int(1, 120)
-    b = {"region": region, "boundary": j, "bytes": j * CHUNK + d.int(2000, 60000),
+    long_tail = d.int(0, 2) == 0       # the header continues for more than one further read window behind the chosen window end
+    b = {"region": region, "boundary": j, "bytes": j * CHUNK + d.int(2000, 60000) + (CHUNK if long_tail else 0),
          "lo": lo, "hi": d.int(lo, 200), "vlo": d.int(0, 40), "seed": d.int(0, 2 ** 32 - 1)}
     b["vhi"] = b["vlo"] + (d.pick([0, 30, 400, 3000]) if region != "dims" else 0)
     if region == "gatts" and d.int(0, 3) == 0:
@@ -194,13 +198,22 @@ def gen_bulk(d, tier):
         b["inside"] = d.int(0, 63)
     else:
         b["target"] = None
+    if long_tail and d.int(0, 2) > 0:
+        # an 8-byte field cut by the window end: its first half is carried over into the next window, and the file offset of
+        # the window after that depends on it
+        b["target"] = d.pick([k for k in REGION_KINDS[region] if k in WIDE_KINDS])
+        b["where"] = "inside"
+        b["inside"] = 0
+        b["wide"] = True
     return b
 
 
 def gen_case(d, tier, bulk=False):
-    version = d.pick([1, 2, 5, 5] if bulk else [1, 2, 5])
-    minimal = not bulk and d.int(0, 39) == 0            # the 32-byte (48-byte for CDF-5) header
     b = gen_bulk(d, tier) if bulk else None
+    version = d.pick([1, 2, 5, 5] if bulk else [1, 2, 5])
+    if b and b.get("wide"):
+        version = 5
+    minimal = not bulk and d.int(0, 39) == 0            # the 32-byte (48-byte for CDF-5) header
     # ---- dimensions
     used = set()
     dims = []
@@ -272,9 +285,10 @@ def small_strategy(draw, tier="quick"):
     return gen_case(HypDraw(draw), tier)
 
 
-def bulk_strategy(tier="quick"):
-    """~0.25-1 MiB headers"""
-    return st.integers(0, 2 ** 40).map(lambda x: gen_case(PureDraw(x), tier, bulk=True))
+def bulk_strategy(tier="quick", salt=0):
+    """0.25-1.3 MiB headers; every case is a pure function of (salt, one drawn small integer): a failing case costs the shrinker
+    a dozen evaluations (seconds each) instead of hundreds"""
+    return st.integers(0, 1023).map(lambda x: gen_case(PureDraw((salt, x)), tier, bulk=True))
 
 
 def case_strategy(tier="quick"):
@@ -856,7 +870,7 @@ def run_case(ctx, case):
                     for key in ("open", "bi", "ei", "close"):
                         if key in ns:
                             e = res.get(ns[key], r)
-                            if e is None or e.get("rc") != 0:
+                            if (e is None or e.get("rc") != 0) and not probs:       # later calls only echo the first failure
                                 probs.append({"kind": "rc", "msg": "%s: %s returned %s on a specification-valid file" % (what, key, None if e is None else e.get("rc")),
                                               "sig": {"kind": "rc", "what": key}})
                     if probs:
@@ -904,7 +918,7 @@ def case_script(case):
 def campaign(ctx):
     n_small, n_bulk = {"quick": (190, 10), "thorough": (1800, 95)}[ctx.tier]
     runner.run_hypothesis(ctx, small_strategy(ctx.tier), runner.guarded(run_case), n_small)
-    runner.run_hypothesis(ctx, bulk_strategy(ctx.tier), runner.guarded(run_case), n_bulk, label="bulk")
+    runner.run_hypothesis(ctx, bulk_strategy(ctx.tier, salt=ctx.seed * 1000 + ctx.widx), runner.guarded(run_case), n_bulk, label="bulk")
 
 
 if __name__ == "__main__":
